@@ -259,14 +259,30 @@ def run(ctx, scratch):
                     steps.append(dict(kind='bfs', source=rng.randrange(n)))
                 else:
                     steps.append(dict(kind=kind, source=sorted(rng.sample(range(n), rng.randint(1, min(2, n))))))
+            # in half of the sequences the caller edits the graph IN PLACE between two calls (adds or removes one edge on the same
+            # matrix object): the following calls must answer for the graph as it is then
+            if k % 2 == 1 and n >= 2:
+                if rng.random() < 0.5:
+                    cand = [(i, j) for i in range(n) for j in range(n) if i != j and (i, j) not in set(E)]
+                    ed = dict(kind='edit', add=list(rng.choice(cand))) if cand else None
+                else:
+                    ed = dict(kind='edit', remove=list(rng.choice(E)))
+                if ed:
+                    steps.insert(rng.randint(1, 3), ed)
             r = impl.call('c10', 'sequence', dict(m=m, steps=steps), timeout=30)
             ctx.traces += 1
             ctx.count('sequence:' + fam, ('seq', n, tuple(E), repr(steps), m['dtype']), True)
+            E0 = list(E)
             if 'ok' not in r:
                 ctx.violation('get_shortest_path', 'a sequence of path calls on one matrix crashed / hung', case=dict(m=m, steps=steps),
                               observed=r, family='same_object_sequence')
                 continue
             for pos, (st, got) in enumerate(zip(steps, r['ok'])):
+                if st['kind'] == 'edit':
+                    if 'ok' not in got:      # a container without item assignment (COO): nothing was edited
+                        continue
+                    E = sorted(set(E) | {tuple(st['add'])}) if 'add' in st else [e for e in E if e != tuple(st['remove'])]
+                    continue
                 if st['kind'] == 'dag':
                     o = st['order']
                     exp = {'ok': sorted([i, j] for (i, j) in E if 0 <= o[i] < o[j])}
@@ -287,7 +303,7 @@ def run(ctx, scratch):
                 if got != exp:
                     site = {'dag': 'get_dag', 'bfs': 'breadth_first_search', 'dist': 'get_distances', 'sp': 'get_shortest_path'}[st['kind']]
                     ctx.violation(site, 'call number %d on the same matrix object differs from the definition (the first calls were '
-                                  'correct: an earlier call disturbed the matrix)' % (pos + 1), case=dict(m=m, steps=steps),
+                                  'correct: an earlier call disturbed the matrix, or kept something of it across an in-place edit)' % (pos + 1), case=dict(m=m, steps=steps),
                                   expected=exp, observed=got, family='same_object_sequence', step=pos, dtype=m['dtype'])
                     break
     ctx.rule = ('exhaustive digraphs n<=3 (loops) x source sets x transpose, sampled loop-free digraphs n=4, all/sampled '
